@@ -34,11 +34,11 @@ Proof.
   intros HM Hm HE. unfold calc_tmax, tmax_R. numR. field. split; [nra|lra].
 Qed.
 
-Lemma ioni_costheta_range (e_inc m_inc t_e m_e : R) :
+Lemma ioni_costheta_raw_range (e_inc m_inc t_e m_e : R) :
   0 < m_inc -> 0 < m_e -> 0 < e_inc -> 0 < t_e <= tmax_R m_inc e_inc m_e ->
-  0 < ioni_costheta e_inc (sqrt (e_inc * e_inc + 2 * m_inc * e_inc)) m_inc t_e m_e <= 1.
+  0 < ioni_costheta_raw e_inc (sqrt (e_inc * e_inc + 2 * m_inc * e_inc)) m_inc t_e m_e <= 1.
 Proof.
-  intros HM Hm HE [Ht0 Ht]. unfold ioni_costheta. numR.
+  intros HM Hm HE [Ht0 Ht]. unfold ioni_costheta_raw. numR.
   set (pe2 := t_e * (t_e + 2 * m_e)). set (pi2 := e_inc * e_inc + 2 * m_inc * e_inc).
   assert (Hpe2 : 0 < pe2) by (unfold pe2; nra). assert (Hpi2 : 0 < pi2) by (unfold pi2; nra).
   assert (Hpe : 0 < sqrt pe2) by (apply sqrt_lt_R0; exact Hpe2).
@@ -65,6 +65,28 @@ Proof.
   replace (t_e * (t_e + 2 * m_e) * (e_inc * e_inc + 2 * m_inc * e_inc))
     with (t_e * ((t_e + 2 * m_e) * (e_inc * (e_inc + 2 * m_inc)))) by ring.
   apply Rmult_le_compat_l; [lra|]. nra.
+Qed.
+
+(** the bound min(., 1) of the repaired code is the identity in exact arithmetic (T_e <= T_max) *)
+Lemma ioni_costheta_eq (e_inc m_inc t_e m_e : R) :
+  0 < m_inc -> 0 < m_e -> 0 < e_inc -> 0 < t_e <= tmax_R m_inc e_inc m_e ->
+  ioni_costheta e_inc (sqrt (e_inc * e_inc + 2 * m_inc * e_inc)) m_inc t_e m_e
+  = ioni_costheta_raw e_inc (sqrt (e_inc * e_inc + 2 * m_inc * e_inc)) m_inc t_e m_e.
+Proof.
+  intros HM Hm HE Ht. pose proof (ioni_costheta_raw_range e_inc m_inc t_e m_e HM Hm HE Ht) as Hr.
+  unfold ioni_costheta, nmin. numR.
+  destruct (Rltb_spec 1 (ioni_costheta_raw e_inc (sqrt (e_inc * e_inc + 2 * m_inc * e_inc)) m_inc t_e m_e)); [lra|reflexivity].
+Qed.
+Lemma ioni_costheta_range (e_inc m_inc t_e m_e : R) :
+  0 < m_inc -> 0 < m_e -> 0 < e_inc -> 0 < t_e <= tmax_R m_inc e_inc m_e ->
+  0 < ioni_costheta e_inc (sqrt (e_inc * e_inc + 2 * m_inc * e_inc)) m_inc t_e m_e <= 1.
+Proof.
+  intros HM Hm HE Ht. rewrite ioni_costheta_eq by assumption. apply ioni_costheta_raw_range; assumption.
+Qed.
+(** ... and it bounds the cosine by 1 for EVERY secondary energy (also above T_max by rounding) *)
+Lemma ioni_costheta_le_1 (e_inc p_inc m_inc t_e m_e : R) : ioni_costheta e_inc p_inc m_inc t_e m_e <= 1.
+Proof.
+  unfold ioni_costheta, nmin. numR. destruct (Rltb_spec 1 (ioni_costheta_raw e_inc p_inc m_inc t_e m_e)); lra.
 Qed.
 
 (** momentum: p_inc d_inc = p' d' + p_e d_e, with p' = sqrt(T'(T' + 2M)), T' = E - T_e *)
@@ -97,7 +119,8 @@ Proof.
   assert (Hpe2' : pe * pe = t_e * (t_e + 2 * m_e)) by (apply sqrt_sqrt; lra).
   set (T' := e_inc - t_e) in *.
   assert (Hsq : dot (momentum_diff pinc dir pe sdir) (momentum_diff pinc dir pe sdir) = T' * (T' + 2 * m_inc)).
-  { rewrite momentum_diff_sq by assumption. rewrite Hpol. unfold ioni_costheta. numR. fold pe.
+  { rewrite momentum_diff_sq by assumption. rewrite Hpol. unfold pinc.
+    rewrite ioni_costheta_eq by (try assumption; lra). fold pinc. unfold ioni_costheta_raw. numR. fold pe.
     replace (2 * pinc * pe * (t_e * (e_inc + m_inc + m_e) / (pe * pinc))) with (2 * (t_e * (e_inc + m_inc + m_e)))
       by (field; lra).
     rewrite Hpinc2, Hpe2'. unfold T'. ring. }
